@@ -340,3 +340,115 @@ _rt_concrete("der.roundtrip_octet_string", "ecdsa.der.remove_octet_string", _bod
 _rt_concrete("der.roundtrip_sequence", "ecdsa.der.remove_sequence", _body_cases(S.enc_seq))
 _rt_concrete("der.roundtrip_constructed", "ecdsa.der.remove_constructed", _body_cases(S.enc_ctx, True))
 _rt_concrete("der.roundtrip_bitstring", "ecdsa.der.remove_bitstring", _bits_cases)
+
+
+# ---- OBJECT IDENTIFIER codec: bounded stand-in (the functions loop over Python lists; not under a deductive contract) --------
+def oid_bounded(tier, seed):
+    """encode_number / read_number / encode_oid / remove_object against the X.690 specification encoders of spec/der.py:
+    exact bytes, round trips with a remainder, acceptance of the canonical encoding only, UnexpectedDER as the only error"""
+    import itertools
+    import random
+    from ecdsa import der as D
+    from spec import der as S
+    from pyvc.bounded import Recipe
+    rnd = random.Random(1106 + seed)
+    found = {}
+    n_cases = 0
+
+    def bad(name, args, obs):
+        found.setdefault(name, (args, obs))
+    top = 20000 if tier == "quick" else 300000
+    nums = list(range(0, top)) + [2 ** (7 * k) + d for k in range(1, 12) for d in (-1, 0, 1)] + [2 ** 64, 2 ** 70 + 12345, 10 ** 30] + [rnd.getrandbits(rnd.choice([20, 35, 63, 90])) for _ in range(300)]
+    rests = [b"", b"\x00", b"\x80", b"\x06\x01\x00", b"\xff\xff"]
+    for n in nums:
+        n_cases += 1
+        exp = S.subid(n)
+        try:
+            got = D.encode_number(n)
+        except Exception as e:
+            got = "raised %s" % type(e).__name__
+        if got != exp:
+            bad("der.encode_number#is-the-base-128-subidentifier", dict(n=n), "got %r, expected %s" % (got, exp.hex()))
+        for rest in (rests if n < 300 or n > top else rests[:2]):
+            try:
+                r = D.read_number(exp + rest)
+            except Exception as e:
+                r = "raised %s" % type(e).__name__
+            if r != (n, len(exp)):
+                bad("der.read_number#decodes-what-encode_number-wrote", dict(string=exp + rest), "got %r, expected %r" % (r, (n, len(exp))))
+    # read_number: only canonical sub-identifiers; UnexpectedDER otherwise
+    for body in [b"", b"\x80", b"\x80\x01", b"\x80\x80\x01", b"\x81", b"\xff\xff", b"\x81\x80"]:
+        n_cases += 1
+        try:
+            r = D.read_number(body)
+            ok = False
+            obs = "accepted %r -> %r" % (body, r)
+        except D.UnexpectedDER:
+            ok = True
+        except Exception as e:
+            ok, obs = False, "raised %s instead of UnexpectedDER" % type(e).__name__
+        if not ok:
+            bad("der.read_number#rejects-non-canonical-or-truncated", dict(string=body), obs)
+    # OIDs
+    firsts = [(0, s) for s in (0, 1, 39)] + [(1, s) for s in (0, 2, 3, 39)] + [(2, s) for s in (0, 5, 39, 40, 47, 48, 127, 128, 999, 2 ** 32, 2 ** 70)]
+    tails = [(), (0,), (127,), (128,), (16383, 16384), (840, 10045, 2, 1), (132, 0, 35), (36, 3, 3, 2, 8, 1, 1, 13), (2 ** 32, 0, 2 ** 70), (0, 0, 0)]
+    oids = [f + t for f in firsts for t in tails]
+    if tier != "quick":
+        oids += [(rnd.choice([0, 1, 2]), rnd.randrange(0, 40)) + tuple(rnd.getrandbits(rnd.choice([3, 7, 8, 14, 15, 40])) for _ in range(rnd.randrange(0, 9))) for _ in range(3000)]
+    for arcs in oids:
+        n_cases += 1
+        exp = S.enc_oid(arcs)
+        try:
+            got = D.encode_oid(*arcs)
+        except Exception as e:
+            got = "raised %s" % type(e).__name__
+        if got != exp:
+            bad("der.encode_oid#is-canonical-DER", dict(arcs=list(arcs)), "got %r, expected %s" % (got if isinstance(got, str) else got.hex(), exp.hex()))
+        for rest in rests[:3]:
+            try:
+                r = D.remove_object(exp + rest)
+            except Exception as e:
+                r = "raised %s: %s" % (type(e).__name__, e)
+            if r != (tuple(arcs), rest):
+                bad("der.remove_object#decodes-what-encode_oid-wrote", dict(string=exp + rest), "got %r, expected %r" % (r, (tuple(arcs), rest)))
+        # every single-step corruption of the canonical encoding is either rejected with UnexpectedDER or is itself canonical
+        muts = set()
+        for i in range(len(exp)):
+            muts.add(exp[:i])
+            for c in (0x00, 0x80, 0x7F, 0xFF, 0x81, 0x06):
+                muts.add(exp[:i] + bytes([c]) + exp[i + 1:])
+                muts.add(exp[:i] + bytes([c]) + exp[i:])
+        body = exp[2:] if exp[1] < 0x80 else None
+        if body is not None and len(body) < 127:
+            muts.add(b"\x06\x81" + bytes([len(body)]) + body)                 # non-minimal length
+            muts.add(b"\x06" + bytes([len(body) + 1]) + b"\x80" + body)      # padded first sub-identifier
+            muts.add(b"\x06" + bytes([len(body) + 1]) + body)                # declared length beyond the buffer
+            muts.add(b"\x06\x00")
+        for m in list(muts)[: (60 if tier == "quick" else 400)]:
+            n_cases += 1
+            try:
+                arcs2, rest2 = D.remove_object(m)
+            except D.UnexpectedDER:
+                continue
+            except Exception as e:
+                bad("der.remove_object#no-escape(%s)" % type(e).__name__, dict(string=m), "raised %s: %s" % (type(e).__name__, e))
+                continue
+            try:
+                re_enc = S.enc_oid(arcs2)
+                ok = m == re_enc + rest2
+            except Exception:
+                ok = False
+                re_enc = b""
+            if not ok:
+                bad("der.remove_object#canonical", dict(string=m), "accepted %s as %r with rest %s, whose canonical encoding is %s" % (m.hex(), arcs2, bytes(rest2).hex(), re_enc.hex()))
+    # encode_oid refuses arcs outside the X.690 range (assertion)
+    for arcs in ((3, 0), (0, 40), (1, 40), (-1, 0), (2, -1)):
+        n_cases += 1
+        try:
+            D.encode_oid(*arcs)
+            bad("der.encode_oid#refuses-invalid-first-arcs", dict(arcs=list(arcs)), "encoded an invalid OID")
+        except AssertionError:
+            pass
+        except Exception as e:
+            bad("der.encode_oid#refuses-invalid-first-arcs", dict(arcs=list(arcs)), "raised %s" % type(e).__name__)
+    return n_cases, found, [dict(numbers=len(nums), oids=len(oids))]
